@@ -43,6 +43,24 @@ class FakeUDPPort(object):
     pass
 
 
+def run_due_reactor_calls(preexisting=()):
+  """What a running reactor does between two reads: calls scheduled with reactor.callLater(0, ...) (by carbon, during this
+  session) are run.  The global reactor is never started in the harness, so its due calls are run by hand."""
+  from twisted.internet import reactor
+  n = 0
+  for _ in range(200):
+    now = reactor.seconds()
+    due = [dc for dc in reactor.getDelayedCalls() if dc.active() and dc.getTime() <= now + 0.001 and id(dc) not in preexisting]
+    if not due:
+      break
+    for dc in sorted(due, key=lambda d: d.getTime()):
+      f, a, kw = dc.func, dc.args, dc.kw
+      dc.cancel()
+      f(*a, **kw)
+      n += 1
+  return n
+
+
 def tcp_session(cls, segments, rec, keep=False, clock=None, gaps=None):
   """Feed `segments` to a fresh protocol instance.  Returns dict(got, exc, disconnecting, exc_at).
   With `clock` (a task.Clock) the protocol's timers run on it and gaps[i] seconds pass before segment i."""
@@ -50,10 +68,13 @@ def tcp_session(cls, segments, rec, keep=False, clock=None, gaps=None):
   t = StringTransport()
   if clock is not None:
     p.callLater = clock.callLater        # TimeoutMixin's hook for its idle timer
+  from twisted.internet import reactor as _reactor
+  pre = set(id(dc) for dc in _reactor.getDelayedCalls())
   p.makeConnection(t)
   rec.take()
   exc = None
   exc_at = None
+  ncalls = 0
   for i, seg in enumerate(segments):
     if clock is not None and gaps:
       clock.advance(gaps[i % len(gaps)])
@@ -61,13 +82,17 @@ def tcp_session(cls, segments, rec, keep=False, clock=None, gaps=None):
       break          # loseConnection() stops reading (twisted's FileDescriptor): nothing more is delivered to the protocol
     try:
       p.dataReceived(seg)
+      ncalls += run_due_reactor_calls(pre)
     except Exception as e:   # must never happen (C11); in production twisted would drop the connection
       exc = e
       exc_at = i
       break
-  out = dict(got=rec.take(), exc=exc, exc_at=exc_at, disconnecting=t.disconnecting, proto=p, transport=t)
+  got = rec.take()
+  disconnecting = t.disconnecting
+  out = dict(got=got, exc=exc, exc_at=exc_at, disconnecting=disconnecting, proto=p, transport=t, reactor_calls=ncalls)
   if not keep:
     close(p)
+    out['got'] = got + rec.take()      # whatever the protocol still hands over when the connection goes down belongs to the session
   return out
 
 
